@@ -424,11 +424,11 @@ def onSuperviseDecide (s : Sys) (self : Cid) (chain : List (Cid × List Cid)) : 
   else if decision = 4 then
     tellAll (tellAll s2 false (some self) targets (.onKill true)) true (some self) allTargets .cmdResume
   else if decision = 5 then tellAll s2 true (some self) allTargets .cmdResume
-  else if decision = 6 then
+  else
+    -- 6 = escalate; any value outside 1..6 is escalated too (documented on `SupervisionDecision`)
     let s3 := upd s2 self (fun x => { x with paused := true })
     let t : Target := match c.parent with | some p => .own p | none => .nobody
     tell s3 true (some self) t (.supervise ((self, []) :: chain') [])
-  else s2
 
 /-- `Context.onSupervise`: a supervisor that is itself stopping (or a zombie) takes no decision any more — its children go
 with it. The failing child's mailbox is paused, so a poison-pill kill handed down earlier cannot be processed, and a
